@@ -1,3 +1,274 @@
-//! C16 — not built yet.
+//! C16 — all front doors agree: fluent builder (operators + helper functions), source text, PipeRunner
+//! presets and the one-shot RoocSolver on the same abstract model; read-backs through builder handles.
 use crate::case::Case;
-pub fn generate(_seed: u64, _n: usize, _thorough: bool, _corpus: Option<&str>) -> Vec<Case> { vec![] }
+use crate::gen_model::{self, ModelCfg, VarDecl};
+use crate::props::c03::{solve_text, solver_error};
+use crate::rng::Rng;
+use crate::sx;
+use crate::text::{Printer, Spelling};
+use indexmap::IndexMap;
+use rooc::model_transformer::{Exp, Model};
+use rooc::pipe::{AutoSolverPipe, CompilerPipe, LinearModelPipe, ModelPipe, PipeContext, PipeRunner, PipeableData, PreModelPipe};
+use rooc::{Auto, BinOp, BuilderConstraint, BuilderError, Expr, Linearizer, MILPValue, ModelBuilder, OptimizationType, RoocParser, UnOp, Var, VariableType};
+
+/// abstract expression -> builder expression THROUGH THE PUBLIC OPERATOR / HELPER API
+fn to_builder(e: &Exp, vars: &IndexMap<String, Var>, r: &mut Rng) -> Expr {
+    let mut go = |x: &Exp| to_builder(x, vars, r);
+    match e {
+        Exp::Number(v) => Expr::from(*v),
+        Exp::Variable(n) => Expr::from(vars[n]),
+        Exp::Abs(x) => rooc::builder::abs(go(x)),
+        Exp::Min(es) => rooc::builder::min(es.iter().map(|x| go(x)).collect::<Vec<_>>()),
+        Exp::Max(es) => rooc::builder::max(es.iter().map(|x| go(x)).collect::<Vec<_>>()),
+        Exp::And(es) => rooc::builder::all(es.iter().map(|x| go(x)).collect::<Vec<_>>()),
+        Exp::Or(es) => rooc::builder::any(es.iter().map(|x| go(x)).collect::<Vec<_>>()),
+        Exp::Not(x) => !go(x),
+        Exp::Xor(a, b) => { let l = go(a); let rr = go(b); l ^ rr }
+        Exp::Implies(a, b) => { let l = go(a); let rr = go(b); l.implies(rr) }
+        Exp::Iff(a, b) => { let l = go(a); let rr = go(b); l.iff(rr) }
+        Exp::BinOp(op, a, b) => {
+            let l = go(a);
+            let rr = go(b);
+            match op {
+                BinOp::Add => l + rr, BinOp::Sub => l - rr, BinOp::Mul => l * rr, BinOp::Div => l / rr,
+                // the operators build the structural n-ary / binary logic forms
+                BinOp::And => l & rr, BinOp::Or => l | rr, BinOp::Xor => l ^ rr,
+                BinOp::Implies => l.implies(rr), BinOp::Iff => l.iff(rr),
+            }
+        }
+        Exp::UnOp(UnOp::Neg, x) => -go(x),
+        Exp::UnOp(UnOp::Not, x) => !go(x),
+    }
+}
+
+/// the same expression with the structural forms the builder operators produce (for the tree comparison)
+fn builder_shape(e: &Exp) -> Exp {
+    let b = |x: &Exp| Box::new(builder_shape(x));
+    match e {
+        Exp::Number(_) | Exp::Variable(_) => e.clone(),
+        Exp::Abs(x) => Exp::Abs(b(x)),
+        Exp::Min(es) => Exp::Min(es.iter().map(builder_shape).collect()),
+        Exp::Max(es) => Exp::Max(es.iter().map(builder_shape).collect()),
+        Exp::And(es) => Exp::And(es.iter().map(builder_shape).collect()),
+        Exp::Or(es) => Exp::Or(es.iter().map(builder_shape).collect()),
+        Exp::Not(x) | Exp::UnOp(UnOp::Not, x) => Exp::Not(b(x)),
+        Exp::Xor(x, y) | Exp::BinOp(BinOp::Xor, x, y) => Exp::Xor(b(x), b(y)),
+        Exp::Implies(x, y) | Exp::BinOp(BinOp::Implies, x, y) => Exp::Implies(b(x), b(y)),
+        Exp::Iff(x, y) | Exp::BinOp(BinOp::Iff, x, y) => Exp::Iff(b(x), b(y)),
+        Exp::BinOp(BinOp::And, x, y) => Exp::And(vec![builder_shape(x), builder_shape(y)]),
+        Exp::BinOp(BinOp::Or, x, y) => Exp::Or(vec![builder_shape(x), builder_shape(y)]),
+        Exp::BinOp(op, x, y) => Exp::BinOp(*op, b(x), b(y)),
+        Exp::UnOp(UnOp::Neg, x) => Exp::UnOp(UnOp::Neg, b(x)),
+    }
+}
+
+fn index_exp(e: &Exp, names: &[String]) -> Exp {
+    // abstract expression with variable NAMES replaced by decimal indices (the builder's `Expr::Variable(i)`)
+    let b = |x: &Exp| Box::new(index_exp(x, names));
+    match e {
+        Exp::Number(_) => e.clone(),
+        Exp::Variable(n) => Exp::Variable(names.iter().position(|x| x == n).unwrap().to_string()),
+        Exp::Abs(x) => Exp::Abs(b(x)),
+        Exp::Min(es) => Exp::Min(es.iter().map(|x| index_exp(x, names)).collect()),
+        Exp::Max(es) => Exp::Max(es.iter().map(|x| index_exp(x, names)).collect()),
+        Exp::And(es) => Exp::And(es.iter().map(|x| index_exp(x, names)).collect()),
+        Exp::Or(es) => Exp::Or(es.iter().map(|x| index_exp(x, names)).collect()),
+        Exp::Not(x) => Exp::Not(b(x)),
+        Exp::Xor(x, y) => Exp::Xor(b(x), b(y)),
+        Exp::Implies(x, y) => Exp::Implies(b(x), b(y)),
+        Exp::Iff(x, y) => Exp::Iff(b(x), b(y)),
+        Exp::BinOp(op, x, y) => Exp::BinOp(*op, b(x), b(y)),
+        Exp::UnOp(op, x) => Exp::UnOp(*op, b(x)),
+    }
+}
+
+fn milp(v: MILPValue) -> f64 { match v { MILPValue::Bool(b) => if b { 1.0 } else { 0.0 }, MILPValue::Int(i) => i as f64, MILPValue::Real(r) => r } }
+
+fn outcome_class(o: &str) -> String {
+    if o.starts_with("(solution") { "solution".into() } else { o.trim_start_matches('(').split(|c| c == ' ' || c == ')').next().unwrap_or("").to_string() }
+}
+fn outcome_value(o: &str) -> Option<f64> {
+    if !o.starts_with("(solution #x") { return None; }
+    u64::from_str_radix(&o[12..28], 16).ok().map(f64::from_bits)
+}
+
+pub fn generate(seed: u64, n: usize, _thorough: bool, _corpus: Option<&str>) -> Vec<Case> {
+    let mut r = Rng::new(seed).fork();
+    let mut out = vec![];
+    for i in 0..n {
+        let cfg = ModelCfg { max_vars: 3, depth: 2, logic: true, piecewise: true, unbounded: false, fractional: false, strict_cmp: false, hostile: false };
+        let nv = 1 + r.below(3);
+        let names = ["x", "y", "z", "w"];
+        let mut ds: Vec<VarDecl> = (0..nv).map(|k| {
+            let ty = match r.below(5) { 0 | 1 | 2 => VariableType::Boolean, _ => { let lo = r.range(-2, 1) as i32; VariableType::IntegerRange(lo, lo + r.range(0, 3) as i32) } };
+            VarDecl { name: names[k].to_string(), ty }
+        }).collect();
+        let (m, _) = gen_model::model_with(&mut r, &cfg, ds.clone());
+        // an extra declared-but-unused builder variable
+        let unused = r.chance(1, 3);
+        if unused { ds.push(VarDecl { name: "unused".into(), ty: VariableType::IntegerRange(2, 3) }); }
+        out.extend(one(&m, &ds, &mut r, i));
+    }
+    out
+}
+
+fn one(m: &Model, ds: &[VarDecl], r: &mut Rng, i: usize) -> Vec<Case> {
+    let mut cases = vec![];
+    let names: Vec<String> = ds.iter().map(|d| d.name.clone()).collect();
+    // ---------------- door 1: builder
+    let mut b = ModelBuilder::new();
+    let mut handles = IndexMap::new();
+    for d in ds { handles.insert(d.name.clone(), b.add_var(d.name.clone(), d.ty)); }
+    let objective_first = r.chance(1, 2);
+    let obj_expr = to_builder(&m.objective().rhs, &handles, r);
+    let set_obj = |b: ModelBuilder, e: Expr| match m.objective().objective_type {
+        OptimizationType::Min => b.minimize(e), OptimizationType::Max => b.maximize(e), OptimizationType::Satisfy => b.satisfy(),
+    };
+    let mut bcons = vec![];
+    for c in m.constraints() {
+        let l = to_builder(c.lhs(), &handles, r);
+        if c.is_logic_assertion() { bcons.push(BuilderConstraint::new_logic_assertion(l, c.name().to_string())); }
+        else { bcons.push(BuilderConstraint::new(l, c.constraint_type(), to_builder(c.rhs(), &handles, r), c.name().to_string())); }
+    }
+    let mut b = b;
+    if objective_first { b = set_obj(b, obj_expr.clone()); }
+    if r.chance(1, 2) { b = b.with_all(bcons.clone()); } else { for c in bcons.clone() { b = b.with(c); } }
+    if !objective_first { b = set_obj(b, obj_expr.clone()); }
+    // (a) into_model vs the Lean model of into_model
+    let bm = b.clone().into_model();
+    {
+        let mut c = Case::default();
+        let vars = ds.iter().map(|d| format!("({} {})", sx::q(&d.name), sx::var_type(&d.ty))).collect::<Vec<_>>().join(" ");
+        let cons = m.constraints().iter().map(|c| {
+            let l = builder_shape(&index_exp(c.lhs(), &names));
+            if c.is_logic_assertion() { format!("(assert {} {})", sx::q(c.name()), sx::exp(&l)) }
+            else { format!("(c {} {} {} {})", sx::q(c.name()), sx::cmp(c.constraint_type()), sx::exp(&l), sx::exp(&builder_shape(&index_exp(c.rhs(), &names)))) }
+        }).collect::<Vec<_>>().join(" ");
+        let obj = match m.objective().objective_type {
+            OptimizationType::Satisfy => "(solve (num #x0000000000000000))".to_string(),
+            ref t => format!("({} {})", sx::opt_type(t), sx::exp(&builder_shape(&index_exp(&m.objective().rhs, &names)))),
+        };
+        c.req = format!("into-model (bvars{}{}) (constraints{}{}) {}", if vars.is_empty() { "" } else { " " }, vars, if cons.is_empty() { "" } else { " " }, cons, obj);
+        c.imp = format!("(ok {})", sx::model(&bm));
+        c.show = format!("builder.into_model of: {}", format!("{}", m).replace('\n', " ; "));
+        c.tags = vec!["into-model".into(), if objective_first { "objective-first".into() } else { "objective-last".into() }];
+        c.nontrivial = true;
+        cases.push(c);
+    }
+    // (b) the doors
+    let builder_lin = Linearizer::linearize(bm.clone());
+    let sp = Spelling { aliases: r.chance(1, 2), implicit_mul: r.chance(1, 2), redundant_parens: r.chance(1, 2), named_consts: false };
+    let mut pr = r.fork();
+    // the text declares every builder variable (also the unused one)
+    let text_model = gen_model::build(m.objective().objective_type.clone(), m.objective().rhs.clone(), m.constraints().clone(), ds);
+    let text = Printer { r: &mut pr, sp, consts: vec![] }.program(&text_model);
+    let text_lin = RoocParser::new(text.clone()).parse_and_transform(vec![], &IndexMap::new()).map_err(|e| e.chars().take(60).collect::<String>())
+        .and_then(|tm| Linearizer::linearize(tm).map_err(|e| crate::props::c01::lin_error(&e)));
+    let o_text = solve_text(&text);
+    let o_builder = match b.clone().solve_with(Auto) {
+        Ok(sol) => {
+            let asg = names.iter().map(|n| format!("({} {})", sx::q(n), sx::num(sol.numeric_value(handles[n]).unwrap_or(f64::NAN)))).collect::<Vec<_>>().join(" ");
+            // read-backs
+            let mut c = Case::default();
+            let vals: Vec<f64> = names.iter().map(|n| sol.numeric_value(handles[n]).unwrap_or(f64::NAN)).collect();
+            let e = if m.constraints().is_empty() { m.objective().rhs.clone() } else { m.constraints()[r.below(m.constraints().len())].lhs().clone() };
+            let be = to_builder(&e, &handles, r);
+            c.req = format!("eval-expr {} (vals {})", sx::exp(&builder_shape(&index_exp(&e, &names))), sx::nums(&vals));
+            c.imp = format!("(ok {})", sx::num(sol.eval(&be)));
+            c.show = format!("solution.eval({}) at {:?}", e, vals);
+            c.tags = vec!["eval-expr".into()];
+            c.nontrivial = true;
+            // handle / name / value_of agreement and unused variables inside their domain
+            for (n, d) in names.iter().zip(ds) {
+                let by_handle = sol.var_value(handles[n]).map(milp);
+                let by_name = sol.solution().value_of(n).map(milp);
+                if by_handle != by_name { c.impl_violation = Some(format!("handle/name read-back differ for {}: {:?} vs {:?}", n, by_handle, by_name)); }
+                match (by_handle, d.ty) {
+                    (None, _) => c.impl_violation = Some(format!("declared builder variable {} has no value in the solution", n)),
+                    (Some(v), VariableType::IntegerRange(lo, hi)) if v < lo as f64 || v > hi as f64 || v.fract() != 0.0 => c.impl_violation = Some(format!("{} = {} outside IntegerRange({}, {})", n, v, lo, hi)),
+                    (Some(v), VariableType::Boolean) if v != 0.0 && v != 1.0 => c.impl_violation = Some(format!("{} = {} not Boolean", n, v)),
+                    _ => {}
+                }
+            }
+            cases.push(c);
+            format!("(solution {} (assign{}{}))", sx::num(sol.value()), if asg.is_empty() { "" } else { " " }, asg)
+        }
+        Err(BuilderError::Linearization(e)) => format!("(compile-error linearize {})", crate::props::c01::lin_error(&e)),
+        Err(BuilderError::Solver(e)) => solver_error(&e),
+    };
+    let o_pipe = {
+        let runner = PipeRunner::new(vec![Box::new(CompilerPipe::new()), Box::new(PreModelPipe::new()), Box::new(ModelPipe::new()), Box::new(LinearModelPipe::new()), Box::new(AutoSolverPipe::new())]);
+        let fns = IndexMap::new();
+        match runner.run(PipeableData::String(text.clone()), &PipeContext::new(vec![], &fns)) {
+            Ok(mut res) => match res.pop() {
+                Some(PipeableData::MILPSolution(sol)) => format!("(solution {})", sx::num(sol.value())),
+                _ => "(pipe-no-solution)".into(),
+            },
+            Err((e, _)) => {
+                let s = format!("{:?}", e);
+                if s.contains("Infeasible") { "(infeasible)".into() } else if s.contains("Unbounded") { "(unbounded)".into() } else { format!("(pipe-error {})", sx::q(&s.chars().take(50).collect::<String>())) }
+            }
+        }
+    };
+    // agreement of the doors
+    let mut c = Case::default();
+    c.show = text.replace('\n', " ; ");
+    c.imp = format!("(doors (builder {}) (text {}) (pipe {}))", o_builder, o_text, o_pipe);
+    c.tags = vec!["doors".into(), outcome_class(&o_builder)];
+    c.nontrivial = o_builder.starts_with("(solution") || o_builder == "(infeasible)";
+    let classes = [outcome_class(&o_builder), outcome_class(&o_text), outcome_class(&o_pipe)];
+    if classes[0] != classes[1] || classes[0] != classes[2] {
+        c.impl_violation = Some(format!("front doors disagree on the verdict: {}", c.imp));
+    } else if matches!(m.objective().objective_type, OptimizationType::Satisfy) {
+        // a feasibility problem has no optimal value to agree on (the text door reports its dummy objective 1,
+        // the builder its dummy objective 0)
+        c.tags.push("satisfy".into());
+    } else if let (Some(a), Some(t), Some(p)) = (outcome_value(&o_builder), outcome_value(&o_text), outcome_value(&o_pipe)) {
+        let tol = 1e-6 * a.abs().max(1.0);
+        if (a - t).abs() > tol || (a - p).abs() > tol { c.impl_violation = Some(format!("front doors disagree on the optimal value: {}", c.imp)); }
+    }
+    // identical trees => identical linear models, row for row (usage counts aside)
+    if let (Ok(bl), Ok(tl)) = (&builder_lin, &text_lin) {
+        let same_tree = RoocParser::new(text.clone()).parse_and_transform(vec![], &IndexMap::new()).map(|tm| strip_usage(&sx::model(&tm)) == strip_usage(&sx::model(&bm))).unwrap_or(false);
+        let all_used = text_model.domain().values().all(|d| d.is_used());
+        if same_tree && all_used {
+            c.tags.push("same-tree".into());
+            if strip_usage(&sx::lin_model(bl)) != strip_usage(&sx::lin_model(tl)) {
+                c.impl_violation = Some("identical expression trees compiled to different linear models through builder and text".into());
+            }
+        }
+    }
+    // the builder's answer is also judged by the reference interpreter
+    c.oracle = format!("ref {} {}", sx::model(&gen_model::build(m.objective().objective_type.clone(), m.objective().rhs.clone(), m.constraints().clone(), ds).mark_all()), o_builder);
+    let fl = crate::props::c01::flags(m);
+    if !fl.is_empty() { c.sig = Some(fl.join(",")); }
+    let _ = i;
+    cases.push(c);
+    cases
+}
+
+fn strip_usage(s: &str) -> String {
+    // drop the usage count of `(name type N)` domain entries
+    let mut out = String::new();
+    let mut rest = s;
+    while let Some(p) = rest.find("(domain") {
+        out.push_str(&rest[..p]);
+        let end = match_paren(&rest[p..]);
+        let dom = &rest[p..p + end];
+        let cleaned: String = dom.split(") (").map(|e| { let t = e.trim_end_matches(')'); let cut = t.rfind(' ').unwrap_or(t.len()); t[..cut].to_string() }).collect::<Vec<_>>().join(") (");
+        out.push_str(&cleaned);
+        rest = &rest[p + end..];
+    }
+    out.push_str(rest);
+    out
+}
+fn match_paren(s: &str) -> usize {
+    let mut d = 0;
+    for (i, ch) in s.char_indices() { if ch == '(' { d += 1 } else if ch == ')' { d -= 1; if d == 0 { return i + 1; } } }
+    s.len()
+}
+
+trait MarkAll { fn mark_all(self) -> Model; }
+impl MarkAll for Model {
+    fn mark_all(mut self) -> Model { for v in self.domain_mut().values_mut() { if !v.is_used() { v.increment_usage(); } } self }
+}
